@@ -39,7 +39,66 @@ fn check(ctx: &Ctx, m: &ModelGame, label: &str, counting: bool) -> Result<(), Fa
 			Fail::new(format!("op=field rowview {}", key), format!("v{}.{} frame index {}: {}", m.version.0, m.version.1, i, e)).with_file("slp", &bytes).with_detail(m.summary())
 		})?;
 	}
-	Ok(())
+	wrapped_variant(ctx, m, rt::hash_bytes(&bytes), counting)
+}
+
+/// The same game with some frame-level events delivered inside one Message Splitter block each (payload
+/// zero-padded to 512 bytes, declared size = payload length, wrapped code = the event's code, last = 1).
+/// The recorder splits nothing but the Gecko list, so a reader that refuses such a file is not at fault;
+/// a reader that accepts it must still decode every field from that event's own bytes.
+fn wrapped_variant(ctx: &Ctx, m: &ModelGame, h: u64, counting: bool) -> Result<(), Fail> {
+	if h % 4 != 0 || !spec::gte((m.version.0, m.version.1), (3, 3)) || m.frames.is_empty() || m.frames.len() > 400 {
+		return Ok(());
+	}
+	let mut raw = m.raw();
+	if !raw.table.iter().any(|&(c, _)| c == spec::EV_SPLITTER) {
+		raw.table.push((spec::EV_SPLITTER, 516));
+	}
+	let stride = 1 + (h >> 8) % 5;
+	let mut k = 0u64;
+	let mut wrapped = 0u64;
+	for ev in raw.events.iter_mut() {
+		if !matches!(ev.at, crate::model::Where::Frame(_)) || ev.payload.len() > 512 {
+			continue;
+		}
+		k += 1;
+		if k % stride != 0 {
+			continue;
+		}
+		let n = ev.payload.len() as u16;
+		let mut p = std::mem::take(&mut ev.payload);
+		p.resize(512, 0);
+		p.extend_from_slice(&n.to_be_bytes());
+		p.push(ev.code);
+		p.push(1);
+		ev.code = spec::EV_SPLITTER;
+		ev.payload = p;
+		wrapped += 1;
+	}
+	if wrapped == 0 {
+		return Ok(());
+	}
+	let bytes = raw.serialize();
+	let g = match rt::slp_read_default(&bytes).expect_ok("slippi::read (wrapped frame events)") {
+		Ok(g) => g,
+		Err(f) if f.sig.contains(" panic~") => return Err(f.with_file("slp", &bytes)),
+		Err(_) => {
+			if counting {
+				ctx.class("wrapped_frame_events_refused");
+			}
+			return Ok(());
+		}
+	};
+	if counting {
+		ctx.class("wrapped_frame_events_accepted");
+		ctx.add("wrapped_frame_events", wrapped);
+	}
+	game_matches_model(&g, m).map_err(|e| {
+		let key: String = e.split(" row ").next().unwrap_or("").chars().take(80).collect();
+		Fail::new(format!("op=field wrapped {}", key), format!("v{}.{} (frame events inside Message Splitter blocks, every {}th): {}", m.version.0, m.version.1, stride, e))
+			.with_file("slp", &bytes)
+			.with_detail(m.summary())
+	})
 }
 
 const PATS: [Pattern; 4] = [Pattern::Distinct, Pattern::Random, Pattern::Special, Pattern::Ones];
